@@ -113,10 +113,13 @@ def _work(args):
     gc.freeze()
     agg = {'evaluations': 0, 'trivial': 0, 'keys': set(), 'probes': {},
            'fired': {}, 'states': set(), 'steps': 0, 'violations': [],
-           'nviol': 0, 'samples': [], 'digest': hashlib.sha256(),
+           'nviol': 0, 'samples': [], 'digest': 0,
            'sim_seconds': 0.0, 'truncated': False, 'hangs': [],
            'by_group': {}}
     sigs_seen = {}
+    dump = None
+    if os.environ.get('VERIF_DUMP_DIGESTS'):
+        dump = open('%s.%d' % (os.environ['VERIF_DUMP_DIGESTS'], w), 'w')
     try:
         g = w
         while g < ncases:
@@ -132,8 +135,12 @@ def _work(args):
             agg['evaluations'] += 1
             agg['steps'] += out['steps']
             agg['sim_seconds'] += out['sim_seconds']
-            agg['digest'].update(('%d:%s:%s\n' % (g, out['status'],
-                                                  out['digest'])).encode())
+            # commutative combination: independent of the worker count
+            agg['digest'] = (agg['digest'] + int(hashlib.sha256(
+                ('%d:%s:%s' % (g, out['status'], out['digest'])).encode())
+                .hexdigest(), 16)) % (1 << 256)
+            if dump is not None:
+                dump.write('%d %s %s\n' % (g, out['status'], out['digest']))
             for k, v in out['probes'].items():
                 agg['probes'][k] = agg['probes'].get(k, 0) + v
             for k, v in out['fired'].items():
@@ -161,8 +168,9 @@ def _work(args):
             g += nworkers
     finally:
         devices.remove_scratch_root()
-    agg['digest'] = agg['digest'].hexdigest()
     agg['sig_counts'] = sigs_seen
+    if dump is not None:
+        dump.close()
     return agg
 
 
@@ -361,8 +369,7 @@ def run_check(modname, tier, seed, workers=None, cases=None):
         samples.extend(a['samples'])
         hangs.extend(a['hangs'])
         truncated = truncated or a['truncated']
-    batch_digest = hashlib.sha256(
-        ''.join(a['digest'] for a in aggs).encode()).hexdigest()
+    batch_digest = '%064x' % (sum(a['digest'] for a in aggs) % (1 << 256))
 
     # confirm hangs alone, with a long allowance, before believing them
     for case in hangs[:3]:
@@ -461,10 +468,11 @@ def run_check(modname, tier, seed, workers=None, cases=None):
     }
     if hasattr(mod, 'evidence_extra'):
         ev['coverage'].update(mod.evidence_extra(tier) or {})
-    os.makedirs(os.path.join(VERIF, 'evidence'), exist_ok=True)
-    evpath = os.path.join(VERIF, 'evidence', '%s.json' % prop)
-    with open(evpath, 'w') as f:
-        json.dump(ev, f, indent=1, sort_keys=True, default=repr)
+    if not os.environ.get('VERIF_NO_EVIDENCE'):
+        os.makedirs(os.path.join(VERIF, 'evidence'), exist_ok=True)
+        evpath = os.path.join(VERIF, 'evidence', '%s.json' % prop)
+        with open(evpath, 'w') as f:
+            json.dump(ev, f, indent=1, sort_keys=True, default=repr)
     print('%s property=%s evaluations=%d distinct_nontrivial=%d trivial=%d '
           'states=%d violations=%d known=%d wall=%.1fs digest=%s%s'
           % ('FAIL' if rc else 'OK', prop, total['evaluations'], len(keys),
